@@ -55,25 +55,29 @@ theorem children_are_the_fields (n : Node) :
   rw [node_fields_as_modelled]
   cases n <;> simp [children, refSlots, nk, getSlot, Slot.erase]
 
-/-- `walker.walk`: `Enter` is the first statement, the type switch re-reads `*node` after it, every
-    case ends with `Exit`, every node kind has a case, anything else panics; `ast.Walk` just starts it. -/
+/-- `walker.walk`: a nil slot is skipped (`if *node == nil { return }`); otherwise `Enter` is the first
+    statement, the type switch re-reads `*node` after it, every case ends with `Exit`, every node kind has a
+    case, anything else panics; `ast.Walk` just starts it. -/
 theorem walker_shape :
+    Gen.walkNilGuard = true ∧
     Gen.walkFirstStmt = "w.visitor.Enter(node)" ∧ Gen.walkSwitchSubject = "(*node)" ∧
     (∀ s ∈ Gen.walkCaseLastStmts, s = "w.visitor.Exit(node)") ∧ Gen.walkCaseLastStmts.length = 22 ∧
     (∀ k : NK, Gen.walkHasCase k = true) ∧ Gen.walkCases.map (·.1) = NK.all ∧ Gen.walkDefaultPanics = true ∧
     Gen.walkEntryBody = ["w := walker{ visitor: visitor, }", "w.walk(node)"] ∧
     Gen.visitorInterface = "interface { Enter(node *Node) Exit(node *Node) }" := by
-  refine ⟨rfl, rfl, by decide, rfl, ?_, rfl, rfl, rfl, rfl⟩
+  refine ⟨rfl, rfl, rfl, by decide, rfl, ?_, rfl, rfl, rfl, rfl⟩
   intro k; cases k <;> rfl
 
 /-- the compiler has a case for every node kind -/
 theorem compiler_dispatch_total : ∀ k : NK, k ∈ Gen.compilerDispatch := by
   intro k; cases k <;> decide
 
-/-- the type checker has a case for every node kind the parser produces (all but `ConstantNode`, which
-    only the optimizer introduces, after the last check) -/
-theorem checker_dispatch_covers_parser_kinds : ∀ k : NK, k ≠ .ConstantNode → k ∈ Gen.checkerDispatch := by
-  intro k hk; cases k <;> first | decide | exact absurd rfl hk
+/-- the type checker has a case for every node kind (its default branch records an error instead of
+    panicking); the compiler's default still panics -/
+theorem checker_dispatch_total :
+    (∀ k : NK, k ∈ Gen.checkerDispatch) ∧ Gen.checkerDefaultPanics = false ∧ Gen.compilerDefaultPanics = true := by
+  refine ⟨?_, rfl, rfl⟩
+  intro k; cases k <;> decide
 
 /-- `expr.Compile`: check, patch operators, user visitors, check again, optimize, compile — all three
     rewriting stages go through `ast.Walk` on the root slot `&tree.Node`, and the tree handed to the
@@ -246,6 +250,15 @@ theorem incomplete_table_witness :
     let t := Node.slice {} (.ident {} "a" false) (some (.ident {} "b" false)) (some (.ident {} "c" false))
     (walk sliceNodeDropped Visitor.idle.logged 3 t ((), [])).map (fun r => enteredNames r.2.2) = some ["b", "c"] ∧
     (walk refSlots Visitor.idle.logged 3 t ((), [])).map (fun r => enteredNames r.2.2) = some ["a", "b", "c"] := by
+  decide
+
+/-- a nil slot is neither entered nor exited, whatever the table says about guarding it:
+    `a[:]` walked with an unguarded table gives the same stream as with the guarded one -/
+theorem nil_slot_skipped :
+    let t := Node.slice {} (.ident {} "a" false) none none
+    let unguarded : WalkTable := fun k => if k = .SliceNode then [⟨.fNode, .single⟩, ⟨.fFrom, .single⟩, ⟨.fTo, .single⟩] else refSlots k
+    (walk unguarded Visitor.idle.logged 3 t ((), [])).map (fun r => enteredNames r.2.2) = some ["a"] ∧
+    (walk refSlots Visitor.idle.logged 3 t ((), [])).map (fun r => enteredNames r.2.2) = some ["a"] := by
   decide
 
 /-! ### non-vacuity -/
